@@ -6,9 +6,10 @@
    runs: every way of cutting a generated series into consecutive pushes (counts, names, -a, thread
    counts 1/2/4) is run on the binary in one directory and compared with the single push, byte for
    byte, including rejects and .pc; idempotence and "fails again the same way" are run too. *)
-From Coq Require Import List ZArith NArith Bool.
+From Coq Require Import List ZArith NArith Bool String.
 Import ListNotations.
-From RQ Require Import Base Apply Parser Quilt QuiltProofs.
+From RQ Require Import Base Apply Parser Quilt QuiltProofs Lines.
+Local Notation length := List.length (only parsing).
 
 Theorem C09_already_applied_changes_nothing :
   forall cfg db g fs series first,
@@ -33,3 +34,36 @@ Theorem C09_apply_loop_composes :
   end.
 Proof. exact apply_series_app. Qed.
 Print Assumptions C09_apply_loop_composes.
+
+(* loading a file that was saved gives the same lines - as long as only the last line lacks its newline *)
+Theorem C09_reload_same_lines :
+  forall ls, wf_lines ls -> split_lines (concat_lines ls) = ls.
+Proof. exact split_of_concat. Qed.
+Print Assumptions C09_reload_same_lines.
+
+Theorem C09_loaded_lines_are_well_formed : forall bs, wf_lines (split_lines bs).
+Proof. exact split_lines_wf. Qed.
+Print Assumptions C09_loaded_lines_are_well_formed.
+
+(* REFUTED for one class (known finding no-newline-midfile): a hunk that marks a line as lacking its newline
+   although another line of the same side follows leaves that line in the middle of the in-memory file; the
+   next invocation loads the saved file with the two lines joined. *)
+Definition nl := String (Ascii.ascii_of_nat 10) EmptyString.
+Definition c09_p1 := b ("--- a/f" ++ nl ++ "+++ b/f" ++ nl ++ "@@ -1,2 +1,2 @@" ++ nl ++ "-a" ++ nl ++ "+A" ++ nl ++
+                        "\ No newline at end of file" ++ nl ++ " b" ++ nl)%string.
+Definition c09_p2 := b ("--- a/f" ++ nl ++ "+++ b/f" ++ nl ++ "@@ -2 +2 @@" ++ nl ++ "-b" ++ nl ++ "+B" ++ nl)%string.
+Definition c09_fs : fsys :=
+  {| fs_files := [([b "series"], {| f_data := b ("p1" ++ nl ++ "p2" ++ nl)%string; f_mode := 420 |});
+                  ([b "f"], {| f_data := b ("a" ++ nl ++ "b" ++ nl)%string; f_mode := 420 |})];
+     fs_dirs := []; fs_log := []; fs_fault := None; fs_fired := false |}.
+Definition c09_db : patches_db := [(b "p1", c09_p1); (b "p2", c09_p2)].
+Definition c09_cfg : config :=
+  {| c_fuzz := 0; c_backup := Never; c_backup_count := BAll; c_dry_run := false; c_default_mode := 420; c_preload := false |}.
+Definition c09_one_push := cmd_push c09_cfg c09_db GAll c09_fs.
+Definition c09_two_pushes := let '(fs1, _) := cmd_push c09_cfg c09_db (GCount 1) c09_fs in cmd_push c09_cfg c09_db GAll fs1.
+Definition c09_f (r : fsys * res bool) := option_map f_data (lookup_file [b "f"] (fs_files (fst r))).
+
+Example C09_refuted_no_newline_midfile :
+  snd c09_one_push = ROk true /\ c09_f c09_one_push = Some (b ("AB" ++ nl)%string) /\
+  snd c09_two_pushes = ROk false /\ c09_f c09_two_pushes = Some (b ("Ab" ++ nl)%string).
+Proof. vm_compute. auto. Qed.
